@@ -77,6 +77,7 @@ NewEndpoint(cfg, isn, rnxt0, pwnd0, now) ==
       frDue    |-> 0,          \* line at which a fast retransmission became due (0: none)
       maxAcked |-> 0,          \* largest payload acknowledged (proven size, C14)
       probeOut |-> -1,         \* sequence number of the outstanding size probe, -1 none
+      probes   |-> 0, newSegs |-> 0, codeMss |-> cfg.mss0, codeMaxSs |-> 0,
       fin      |-> NoFin,
       splitDelivered |-> FALSE, \* a probe was re-segmented after the peer had already stored it (known finding)
       \* receive side
@@ -359,7 +360,7 @@ R_C04_WithinBuffer(e) == InsideAdvertised(e) => Stored(e) <= e.cfg.rx_buf + Read
 (* C07 triggers are set here: the effect of storing / declining a packet on the ACK obligations *)
 AckTrig(e, bytes, imm, now, line) ==
     LET ub == e.unackedB + bytes
-        im == imm \/ ub >= 2 * OwnMss(e)
+        im == imm     \* (the 2 x MSS threshold is judged when the clock advances, with the segment size of that instant)
     IN  [e EXCEPT !.unackedB = ub,
                   !.ackDue = IF bytes > 0 /\ @ < 0 THEN now + ACK_DELAY ELSE @,
                   !.ackImm = IF im /\ @ = 0 THEN line ELSE @]
